@@ -262,6 +262,18 @@ static Res run_sel_t(Store& st, Comp comp, long rank) {
         long len = (long)st[i].size();
         seqs[i] = std::make_pair(CkIt(st[i].data(), len, 0, (int)i), CkIt(st[i].data(), len, len, (int)i));
     }
+    // aliased call pattern: `rank` is a const RankType& and `offset` a RankType&; a caller may pass the SAME variable
+    // (rank in, offset out).  The result must be the one of the call with separate variables.
+    // (multisequence_partition has no such pair: its only by-reference scalar is `rank`, its output goes through
+    // an iterator to iterators, which cannot alias an integer.)
+    Res al;
+    try {
+        RT io = static_cast<RT>(rank);
+        al.val = tlx::multisequence_selection<Val>(seqs.begin(), seqs.end(), io, io, comp).v;
+        al.offset = static_cast<long>(io);
+    } catch (const std::exception&) {
+        al.threw = true;
+    }
     g_log.clear();
     Res r;
     try {
@@ -272,6 +284,10 @@ static Res run_sel_t(Store& st, Comp comp, long rank) {
     } catch (const std::exception&) {
         r.threw = true;
     }
+    if (!r.threw && (al.threw || al.val != r.val || al.offset != r.offset))
+        g_log.errors.push_back("selection called with the same variable for rank and offset " +
+                               (al.threw ? std::string("threw") : "returned value " + std::to_string(al.val) + " offset " + std::to_string(al.offset)) +
+                               ", with separate variables value " + std::to_string(r.val) + " offset " + std::to_string(r.offset));
     return r;
 }
 
